@@ -69,7 +69,11 @@ def _ConvolutionOperator(domain, kernel, space=None):
     lm = [d for d in domain]
     lm[space] = lm[space].get_default_codomain()
     lm = DomainTuple.make(lm)
-    utilities.check_object_identity(lm[space], kernel.domain[0])
+    if lm[space] != kernel.domain[0]:
+        raise ValueError('domain mismatch')
+    lm = list(lm)
+    lm[space] = kernel.domain[0]
+    lm = DomainTuple.make(lm)
     HT = HarmonicTransformOperator(lm, domain[space], space)
     diag = DiagonalOperator(kernel*domain[space].total_volume, lm, (space,))
     wgt = WeightApplier(domain, space, 1)
